@@ -186,7 +186,7 @@ func genTWCCHand(j job, tier string, emit func(caseDesc) bool) {
 
 // ---------------------------------------------------------------- hand-built RFC 8888 feedback
 
-var metricCycle = []ccfbMetric{{R: true, ECN: 0, ATO: 5}, {}, {R: true, ECN: 3, ATO: 0}, {R: true, ECN: 1, ATO: 0x1FFE}, {R: true, ECN: 2, ATO: 1024}, {R: true, ECN: 0, ATO: 0x1FFF}}
+var metricCycle = []ccfbMetric{{R: true, ECN: 0, ATO: 5}, {}, {R: true, ECN: 3, ATO: 0}, {R: true, ECN: 1, ATO: 0x1FFE}, {R: true, ECN: 2, ATO: 1024}, {R: true, ECN: 0, ATO: 0x1FFF}, {R: true, ECN: 3, ATO: 0x1FFF}, {R: true, ECN: 1, ATO: 0x1FFF}}
 
 func metrics(n, rot int) []ccfbMetric {
 	out := make([]ccfbMetric, n)
